@@ -3,6 +3,7 @@ package main
 import (
 	"go/token"
 	"go/types"
+	"strconv"
 	"strings"
 
 	"golang.org/x/tools/go/ssa"
@@ -44,6 +45,7 @@ func runC12(c *Ctx) {
 	c.c12Store()
 	c.c12Parallelise()
 	c.c12StoreKeepsItsOwnArray()
+	c.c12StoreHandedOverStopsEverything()
 	c.c12NilResults()
 	c.noContextCause("T7", []string{"parallelisation", "commonerrors"})
 }
@@ -929,5 +931,82 @@ func (c *Ctx) c12StoreKeepsItsOwnArray() {
 	}
 	if n == 0 {
 		c.info("T9", parPkg+"/no-slice-parameters", "-", "no function of the package receives a slice")
+	}
+}
+
+// c12StoreHandedOverStopsEverything (T10): "otherwise the 'timeout' (or 'cancelled') kind once the action has observed its stop
+// signal". A runner that is handed a cancel store gives its caller the means to stop the run: cancelling the store must end
+// everything the runner waits on — the action's context and the timeout context alike. A cancel function that is merely
+// deferred is called when the runner returns, which is too late: with the timeout context left out of the store, a Cancel()
+// during the run stops the action, and the runner — still waiting on a context nobody cancelled — reports the action's nil,
+// a raw context error, or 'timeout' for a run cancelled long before the deadline. Decided for every function of package
+// parallelisation with a *CancelFunctionStore parameter: each cancel function it obtains from context.With* is registered
+// in that store.
+func (c *Ctx) c12StoreHandedOverStopsEverything() {
+	c.rule("T10", "a runner that is handed a cancel store registers in it every cancel function it creates (context.WithTimeout / WithCancel / WithDeadline): cancelling the store ends everything the runner waits on", 2)
+	n := 0
+	for _, f := range c.srcFuncs(parPkg) {
+		if f.Parent() != nil || f.Blocks == nil {
+			continue
+		}
+		var store *ssa.Parameter
+		for _, p := range f.Params {
+			if strings.HasSuffix(p.Type().String(), "parallelisation.CancelFunctionStore") {
+				store = p
+			}
+		}
+		if store == nil || f.Signature.Recv() != nil {
+			continue
+		}
+		allInstrs(f, func(in ssa.Instruction) {
+			cl, ok := in.(*ssa.Call)
+			if !ok {
+				return
+			}
+			switch calleeFull(&cl.Call) {
+			case "context.WithTimeout", "context.WithCancel", "context.WithDeadline", "context.WithTimeoutCause", "context.WithCancelCause", "context.WithDeadlineCause":
+			default:
+				return
+			}
+			var cancel ssa.Value
+			for _, r := range *cl.Referrers() {
+				if ex, ok := r.(*ssa.Extract); ok && ex.Index == 1 {
+					cancel = ex
+				}
+			}
+			n++
+			registered := false
+			if cancel != nil {
+				allInstrs(f, func(i2 ssa.Instruction) {
+					rc, ok := i2.(*ssa.Call)
+					if !ok || !strings.HasSuffix(calleeFull(&rc.Call), "CancelFunctionStore).RegisterCancelFunction") || len(rc.Call.Args) < 2 {
+						return
+					}
+					if resolveValue(rc.Call.Args[0]) != ssa.Value(store) {
+						return
+					}
+					for _, el := range variadicElems(rc.Call.Args[1]) {
+						for _, l := range append(sources(el, deriveOpts{}), resolveValue(el)) {
+							if l == cancel || sameValue(l, cancel) {
+								registered = true
+							}
+							if ex, isEx := l.(*ssa.Extract); isEx && ex.Tuple == ssa.Value(cl) && ex.Index == 1 {
+								registered = true
+							}
+						}
+					}
+				})
+			}
+			key := fname(f) + "/registered:" + short(calleeFull(&cl.Call))
+			if n > 1 {
+				key += "#" + strconv.Itoa(n-1)
+			}
+			c.FuncsSeen[fname(f)] = true
+			c.check(registered, "T10", key, c.ipos(cl), "the cancel function is registered in the store the function was handed",
+				"the cancel function of the context made here is not registered in the store handed to "+f.Name()+": cancelling that store during the run no longer ends what the runner waits on — the runner reports the action's own nil for a run that was cancelled, a raw context error instead of the 'cancelled' kind, or 'timeout' for a run cancelled long before the deadline")
+		})
+	}
+	if n == 0 {
+		c.info("T10", parPkg+"/no-runner-with-a-store", "-", "no function of the package is handed a cancel store and creates contexts")
 	}
 }
